@@ -51,6 +51,8 @@ type State struct {
 	variantAt map[*ssa.BasicBlock]string
 	inLoop map[*ssa.BasicBlock]bool
 	path   []string // trace of block indices for reporting
+	fnAt   map[string]*FnVal // function values stored in variable cells (by cell ref)
+	loopLog map[int]int // loop ordinal -> length of the call log at the last loop head
 	dead   bool
 }
 
@@ -85,6 +87,18 @@ func (st *State) clone() *State {
 	}
 	for k, v := range st.inLoop {
 		n.inLoop[k] = v
+	}
+	if st.fnAt != nil {
+		n.fnAt = map[string]*FnVal{}
+		for k, v := range st.fnAt {
+			n.fnAt[k] = v
+		}
+	}
+	if st.loopLog != nil {
+		n.loopLog = map[int]int{}
+		for k, v := range st.loopLog {
+			n.loopLog[k] = v
+		}
 	}
 	n.pc = append([]string(nil), st.pc...)
 	n.defers = append([]deferred(nil), st.defers...)
@@ -237,6 +251,11 @@ func (E *Engine) load(st *State, h map[string]string, lv *LVal) *Val {
 	}
 	i := 0
 	v := E.build(T, scal, &i)
+	if st != nil && st.fnAt != nil && lv.Kind == lvHeap && len(lv.Path) == 0 {
+		if fv, ok := st.fnAt[lv.Ref]; ok && v.F == nil {
+			v.Fn = fv
+		}
+	}
 	return v
 }
 
@@ -337,6 +356,12 @@ func (E *Engine) store(st *State, lv *LVal, nv *Val) {
 	var ls []leafInfo
 	E.leafPaths(T, "", &ls)
 	sc := leaves(nv)
+	if nv.Fn != nil && lv.Kind == lvHeap && len(lv.Path) == 0 {
+		if st.fnAt == nil {
+			st.fnAt = map[string]*FnVal{}
+		}
+		st.fnAt[lv.Ref] = nv.Fn
+	}
 	if len(sc) != len(ls) {
 		panic(engineErr(fmt.Sprintf("store: shape mismatch %d vs %d for %s", len(sc), len(ls), typeKey(T))))
 	}
